@@ -22,7 +22,7 @@ theorem coh_step (q : Quirks) (cfgs : Nat → Cfg) (w : RWorld) (c : Nat) (op : 
     split
     · split
       · exact coh_srvDel _ _ _ h
-      · exact coh_srvPut _ _ _ _ (coh_srvDel _ _ _ h)
+      · exact coh_srvPut _ _ _ _ (coh_read _ _ _ _ (coh_srvDel _ _ _ h))
     · exact h
   | upd k f v =>
     simp only [rstep]
@@ -129,7 +129,7 @@ theorem cap_step (q : Quirks) (cfgs : Nat → Cfg) (w : RWorld) (c : Nat) (op : 
     split
     · split
       · exact cap_srvDel _ _ _ h
-      · exact cap_srvPut _ _ _ _ (cap_srvDel _ _ _ h)
+      · exact cap_srvPut _ _ _ _ (cap_read _ _ _ _ (cap_srvDel _ _ _ h))
     · exact h
   | upd k f v =>
     simp only [rstep]
@@ -209,7 +209,8 @@ theorem redis_refines (cfgs : Nat → Cfg) (w : RWorld) (c : Nat) (op : Op)
     simp only [rstep, hok, Quirks.none, specStep, specOut]
     simp only [Bool.false_and, Bool.false_eq_true, ↓reduceIte]
     refine ⟨?_, trivial, ?_⟩
-    · rw [rabs_put, rabs_del, spec_set_del]
+    · funext k'
+      by_cases e : k' = k <;> simp [rabs, Spec.set, aGet_aSet, srvDel_get, pk_inj, e]
     · exact aKeys_aSet_nodup _ _ _ (srvDel_nodup _ _ hk)
   | upd k f v =>
     simp only [opOk, Bool.not_eq_true'] at hok
@@ -217,7 +218,7 @@ theorem redis_refines (cfgs : Nat → Cfg) (w : RWorld) (c : Nat) (op : Op)
     simp only [rabs]
     cases h : aGet w.srv (pk (cfgs c).pre k) with
     | none =>
-      simp [view, emptyOf, nestedSet, objSet, hk]
+      simp [view, emptyOf, nestedSet, objSet]
       exact ⟨by rw [rabs_put], aKeys_aSet_nodup _ _ _ hk⟩
     | some d =>
       cases h2 : nestedSet d f v with
@@ -231,7 +232,7 @@ theorem redis_refines (cfgs : Nat → Cfg) (w : RWorld) (c : Nat) (op : Op)
     simp only [rabs]
     cases h : aGet w.srv (pk (cfgs c).pre k) with
     | none =>
-      simp [view, emptyOf, nestedApp, hk]
+      simp [view, emptyOf, nestedApp]
       exact ⟨by rw [rabs_put], aKeys_aSet_nodup _ _ _ hk⟩
     | some d =>
       cases h2 : nestedApp d v with
